@@ -75,6 +75,9 @@ pub enum Con {
     BoolEq(Vec<i64>, Vec<Lit>, usize),
     /// permanent clause over arbitrary atomic predicates (`Solver::add_clause`)
     PClause(Vec<MPred>),
+    /// permanent clause over atomic predicates on views: `[s*x + o  op  v]` (`Solver::add_clause` with
+    /// predicates built over `AffineView`s)
+    VClause(Vec<(View, PK, i64)>),
     /// the 0-1 variable `b` was created with `new_literal_for_predicate(p)`: b <-> p. Not posted
     /// (the solver links them when the literal is created); part of the reference semantics.
     LitDef(usize, MPred),
@@ -122,6 +125,7 @@ impl Con {
             Con::BoolLe(..) => "bool_lin_le",
             Con::BoolEq(..) => "bool_lin_eq",
             Con::PClause(..) => "predicate_clause",
+            Con::VClause(..) => "view_clause",
             Con::LitDef(..) => "literal_definition",
         }
     }
@@ -141,7 +145,7 @@ impl Con {
     }
     /// clause / conjunction go through `add_clause` and cannot carry a tag
     pub fn taggable(&self) -> bool {
-        !matches!(self, Con::Clause(..) | Con::Conj(..) | Con::PClause(..) | Con::LitDef(..))
+        !matches!(self, Con::Clause(..) | Con::Conj(..) | Con::PClause(..) | Con::VClause(..) | Con::LitDef(..))
     }
     pub fn views(&self) -> Vec<&View> {
         match self {
@@ -151,6 +155,7 @@ impl Con {
             Con::Max(t, r) | Con::Min(t, r) => t.iter().chain(std::iter::once(r)).collect(),
             Con::Elem(i, t, r) => std::iter::once(i).chain(t.iter()).chain(std::iter::once(r)).collect(),
             Con::Cumul(st, ..) => st.iter().collect(),
+            Con::VClause(ps) => ps.iter().map(|p| &p.0).collect(),
             Con::Clause(_) | Con::Conj(_) | Con::BoolLe(..) | Con::BoolEq(..) | Con::PClause(_) | Con::LitDef(..) => vec![],
         }
     }
@@ -220,6 +225,16 @@ impl Con {
                 w.iter().zip(l).map(|(w, l)| if lit_true(l, a) { *w as i128 } else { 0 }).sum::<i128>() == a[*r] as i128
             }
             Con::PClause(ps) => ps.iter().any(|p| p.holds(a)),
+            Con::VClause(ps) => ps.iter().any(|(v, k, c)| {
+                let x = v.val(a);
+                let c = *c as i128;
+                match k {
+                    PK::Ge => x >= c,
+                    PK::Le => x <= c,
+                    PK::Eq => x == c,
+                    PK::Ne => x != c,
+                }
+            }),
             Con::LitDef(b, p) => (a[*b] == 1) == p.holds(a),
         }
     }
@@ -500,6 +515,17 @@ impl Con {
             Con::BoolLe(w, l, r) => vec![k, Json::ints(w), lits_j(l), Json::int(*r)],
             Con::BoolEq(w, l, r) => vec![k, Json::ints(w), lits_j(l), Json::int(*r as i64)],
             Con::PClause(ps) => vec![k, Json::arr(ps, mpred_j)],
+            Con::VClause(ps) => vec![
+                k,
+                Json::arr(ps, |(v, pk, c)| {
+                    Json::Arr(vec![view_j(v), Json::str(match pk {
+                        PK::Ge => ">=",
+                        PK::Le => "<=",
+                        PK::Eq => "==",
+                        PK::Ne => "!=",
+                    }), Json::int(*c)])
+                }),
+            ],
             Con::LitDef(b, p) => vec![k, Json::int(*b as i64), mpred_j(p)],
         };
         Json::Arr(a)
@@ -528,6 +554,22 @@ impl Con {
             "bool_lin_le" => Con::BoolLe(j_ints(&a[1]), j_lits(&a[2]), a[3].as_i64()),
             "bool_lin_eq" => Con::BoolEq(j_ints(&a[1]), j_lits(&a[2]), a[3].as_usize()),
             "predicate_clause" => Con::PClause(a[1].as_arr().iter().map(j_mpred).collect()),
+            "view_clause" => Con::VClause(
+                a[1].as_arr()
+                    .iter()
+                    .map(|p| {
+                        let p = p.as_arr();
+                        let k = match p[1].as_str() {
+                            ">=" => PK::Ge,
+                            "<=" => PK::Le,
+                            "==" => PK::Eq,
+                            "!=" => PK::Ne,
+                            o => panic!("bad operator {o}"),
+                        };
+                        (j_view(&p[0]), k, p[2].as_i64())
+                    })
+                    .collect(),
+            ),
             "literal_definition" => Con::LitDef(a[1].as_usize(), j_mpred(&a[2])),
             k => panic!("unknown constraint kind {k}"),
         }
